@@ -13,6 +13,7 @@ import (
 	"os"
 	"path/filepath"
 	"slices"
+	"sort"
 	"strings"
 	"time"
 
@@ -139,7 +140,7 @@ func bigGen(g *G, tier string) []M {
 	for _, f := range roundTripFormats {
 		ops = append(ops, M{"op": "rewriteAfterEdit", "f": string(f)})
 	}
-	ops = append(ops, M{"op": "deepChain"})
+	ops = append(ops, M{"op": "deepChain"}, M{"op": "anonBig"})
 	// copies of long node lists (sizes around and off the powers of two a chunked copy would use)
 	ops = append(ops, M{"op": "copyBig"})
 	// one options value without a format shared by calls on writers of different formats, and a
@@ -195,6 +196,9 @@ func ExecBig(op M) (res any) {
 	}
 	if asStr(op["op"]) == "rewriteAfterEdit" {
 		return rewriteAfterEdit(formats.Format(asStr(op["f"])))
+	}
+	if asStr(op["op"]) == "anonBig" {
+		return anonBig()
 	}
 	if asStr(op["op"]) == "deepChain" {
 		return deepChain()
@@ -511,6 +515,34 @@ func storeRevisions() any {
 		}
 		want["urn:rev:1"] = proto.Clone(doc).(*sbom.Document)
 		check("after the object went back to its first identifier")
+		// documents of every size around the powers of two: what a completed store leaves is the
+		// whole document, first store and overwrite alike
+		for _, size := range []int{1, 2, 63, 64, 65, 127, 128, 129, 191, 192, 193, 255, 256, 257, 512, 1024} {
+			d := bigDoc(1, 16)
+			d.Metadata.Id = fmt.Sprintf("urn:rev:size-%d", size)
+			for len(d.NodeList.Nodes) < size {
+				n := sbom.NewNode()
+				n.Id, n.Name = fmt.Sprintf("extra-%d", len(d.NodeList.Nodes)), "extra"
+				d.NodeList.AddNode(n)
+				d.NodeList.AddEdge(&sbom.Edge{Type: sbom.Edge_contains, From: d.NodeList.Nodes[0].Id, To: []string{n.Id}})
+			}
+			for pass := 0; pass < 2; pass++ {
+				d.Metadata.Version = fmt.Sprint(pass + 1)
+				if err := store(d); err != nil {
+					bad("(%s) store of a document with %d nodes fails: %v", through, len(d.NodeList.Nodes), err)
+					continue
+				}
+				fresh := &storage.FileSystem{Options: storage.FileSystemOptions{Path: sub}}
+				got, err := fresh.Retrieve(d.Metadata.Id, &storage.RetrieveOptions{})
+				if err != nil {
+					bad("(%s) a stored document with %d nodes does not come back: %v", through, len(d.NodeList.Nodes), err)
+				} else if !proto.Equal(got, d) {
+					bad("(%s) a stored document with %d nodes and %d edges comes back with %d nodes and %d edges (store %d)", through, len(d.NodeList.Nodes), len(d.NodeList.Edges),
+						len(got.GetNodeList().GetNodes()), len(got.GetNodeList().GetEdges()), pass+1)
+				}
+			}
+		}
+		check("after documents of many sizes were stored")
 	}
 	return M{"problems": problems}
 }
@@ -896,6 +928,82 @@ func deepChain() any {
 			bad("a chain of %d nested components (%d bytes) takes %v to parse", depth, sb.Len(), el)
 		}
 	}
+	// and the way round: a containment chain written and read back comes back whole
+	for _, depth := range []int{10, 66, 81, 300} {
+		doc := sbom.NewDocument()
+		doc.Metadata.Id = "urn:uuid:3e671687-395b-41f5-a30f-a58921a69b79"
+		for i := 0; i <= depth; i++ {
+			n := sbom.NewNode()
+			n.Id, n.Name, n.PrimaryPurpose = fmt.Sprintf("node-%03d", i), fmt.Sprintf("node-%03d", i), []sbom.Purpose{sbom.Purpose_LIBRARY}
+			if i == 0 {
+				doc.NodeList.AddRootNode(n)
+			} else {
+				doc.NodeList.AddNode(n)
+				doc.NodeList.AddEdge(&sbom.Edge{Type: sbom.Edge_contains, From: fmt.Sprintf("node-%03d", i-1), To: []string{n.Id}})
+			}
+		}
+		for _, f := range []formats.Format{formats.CDX15JSON, formats.CDX14JSON} {
+			by, err := WriteDoc(doc, f, 0)
+			if err != nil {
+				bad("a containment chain of %d links is not written as %s: %v", depth, f, err)
+				continue
+			}
+			back, err := reader.New().ParseStream(bytes.NewReader(by))
+			if err != nil || back == nil {
+				bad("the %s output of a containment chain of %d links does not parse: %v", f, depth, err)
+				continue
+			}
+			if got := len(back.GetNodeList().GetNodes()); got != depth+1 {
+				bad("a containment chain of %d nodes written as %s and read back has %d nodes", depth+1, f, got)
+			}
+		}
+	}
+	return M{"problems": problems}
+}
+
+// anonBig: a native CycloneDX document with more than a thousand components that carry no
+// reference: every one gets an identifier of its own, the same at every parse
+func anonBig() any {
+	problems := []any{}
+	bad := func(format string, a ...any) { problems = append(problems, fmt.Sprintf(format, a...)) }
+	for _, n := range []int{1023, 1025, 2100} {
+		var sb strings.Builder
+		sb.WriteString(`{"bomFormat":"CycloneDX","specVersion":"1.4","version":1,"metadata":{"component":{"bom-ref":"main","type":"application","name":"main"}},"components":[`)
+		for i := 0; i < n; i++ {
+			if i > 0 {
+				sb.WriteString(",")
+			}
+			fmt.Fprintf(&sb, `{"type":"library","name":"lib-%d","version":"1.%d"}`, i, i)
+		}
+		sb.WriteString(`]}`)
+		var first []string
+		for pass := 0; pass < 2; pass++ {
+			d, err := reader.New().ParseStream(strings.NewReader(sb.String()))
+			if err != nil || d == nil {
+				bad("a document with %d components without reference does not parse: %v", n, err)
+				break
+			}
+			ids := []string{}
+			seen := map[string]bool{}
+			for _, nd := range d.GetNodeList().GetNodes() {
+				if seen[nd.Id] {
+					bad("a document with %d components without reference: identifier %q is given twice", n, nd.Id)
+					break
+				}
+				seen[nd.Id] = true
+				ids = append(ids, nd.Id+"="+nd.Name)
+			}
+			if len(ids) != n+1 {
+				bad("a document with %d components without reference and a main component gives %d nodes", n, len(ids))
+			}
+			sort.Strings(ids)
+			if pass == 0 {
+				first = ids
+			} else if !slices.Equal(first, ids) {
+				bad("a document with %d components without reference gets other identifiers at the second parse", n)
+			}
+		}
+	}
 	return M{"problems": problems}
 }
 
@@ -1071,7 +1179,7 @@ func sniffLong(n int, shape string) any {
 func oracleBig(op M, res any, exec func(M) any) []Finding {
 	var out []Finding
 	name := asStr(op["op"])
-	if name == "filePaths" || name == "storeWrappers" || name == "storeRevisions" || name == "sharedCallOptions" || name == "failedWriteThenWrite" || name == "rewriteAfterEdit" || name == "deepChain" || name == "copyBig" {
+	if name == "anonBig" || name == "filePaths" || name == "storeWrappers" || name == "storeRevisions" || name == "sharedCallOptions" || name == "failedWriteThenWrite" || name == "rewriteAfterEdit" || name == "deepChain" || name == "copyBig" {
 		what := "file entry points (" + asStr(op["f"]) + ")"
 		switch name {
 		case "storeWrappers":
@@ -1086,6 +1194,8 @@ func oracleBig(op M, res any, exec func(M) any) []Finding {
 			what = "writes of an edited document (" + asStr(op["f"]) + ")"
 		case "deepChain":
 			what = "chains of nested components"
+		case "anonBig":
+			what = "many components without reference"
 		case "copyBig":
 			what = "copies of long node lists"
 		}
@@ -1272,6 +1382,8 @@ func bigOpProps(op M) []string {
 		}
 		return []string{"C02", "C03", "C07"}
 	case "deepChain":
+		return []string{"C03", "C04", "C05"}
+	case "anonBig":
 		return []string{"C04", "C05"}
 	case "copyBig":
 		return []string{"C12"}
